@@ -41,6 +41,16 @@
  */
 namespace Tins {
 
+#ifdef TINS_VERIF_HOOKS
+// Verification hook (off unless TINS_VERIF_HOOKS is defined): PDU::serialize reports, through this callback,
+// (what = 1) a buffer smaller than header + trailer, (what = 2) the first offset at which write_serialization()
+// modified bytes that the inner layers had already produced.
+namespace VerifHooks {
+typedef void (*serialize_monitor_type)(int pdu_type, int what, uint32_t offset);
+extern serialize_monitor_type serialize_monitor;
+}
+#endif // TINS_VERIF_HOOKS
+
 class PacketSender;
 class NetworkInterface;
 
